@@ -534,7 +534,7 @@ static double enum_param(int fam, int j, Rng& r) {
     if (fam == F_GAUSS) { const double v[] = {2.5, 0.5, 6.0}; return j < 3 ? v[j] : r.uni(0.5, 6.0); }
     if (fam == F_TUKEY) { const double v[] = {0.5, 0.0, 1.0, -0.5, 1.5}; return j < 5 ? v[j] : j == 5 ? r.uni(0, 0.01) : j == 6 ? r.uni(0.99, 1.0) : r.uni(0.0, 1.0); }
     const double v[] = {0.5, 0.0, 40.0, 38.0};
-    return j < 4 ? v[j] : r.uni(0, 40);
+    return j < 4 ? v[j] : (j % 4 == 0) ? std::pow(10.0, r.uni(-14, 1.6)) : r.uni(0, 40);
 }
 static void wcf_gen(Ctx& ctx) {
     std::vector<int> lens;
@@ -563,7 +563,9 @@ static void wcf_gen(Ctx& ctx) {
         Json c = Json::object().set("fam", fam).set("n", n).set("sym", sym);
         if (fam == F_GAUSS) c.set("p", pickd(0.5, 6));
         if (fam == F_TUKEY) { int k = pick(0, 7); c.set("p", k == 0 ? 0.0 : k == 1 ? 1.0 : k == 2 ? pickd(-0.5, 0) : k == 3 ? pickd(1, 1.5) : k == 4 ? pickd(0, 0.01) : pickd(0, 1)); }
-        if (fam == F_KAISER) c.set("p", pick(0, 9) == 0 ? 0.0 : pickd(0, 40));
+        // continuous parameters also log-uniformly towards the end of their range that is 0 (a shortcut for "vanishing" values needs it)
+        if (fam == F_KAISER) { const int k = pick(0, 9); c.set("p", k == 0 ? 0.0 : k <= 2 ? std::pow(10.0, pickd(-14, 1.6)) : pickd(0, 40)); }
+        if (fam == F_TUKEY && pick(0, 7) == 0) c.set("p", flip() ? std::pow(10.0, pickd(-14, 0)) : 1.0 - std::pow(10.0, pickd(-14, 0)));
         return c;
     });
 }
